@@ -148,6 +148,47 @@ for rows in (1, 2, 4):
                     {"rows": rows, "shared": shared, "mask": mask[:rows]}, lambda rows=rows, shared=shared, mask=mask: serialize_is_pure(rows, shared, mask))
 
 
+def names_contract(block_names, cat_names, col_names, looped):
+    """all block / category / column names the grammar admits (mixed case, digits, dots, dashes, brackets as in
+    U[1][1]) come back as keys, in order, with their tables"""
+    f = pdbx.CIFFile()
+    exp = {}
+    for b in block_names:
+        blk = pdbx.CIFBlock()
+        exp[b] = {}
+        for c in cat_names:
+            cols = {col: ([f"{b}|{c}|{col}|{r}" for r in range(2)] if looped else [f"{b}|{c}|{col}"]) for col in col_names}
+            blk[c] = pdbx.CIFCategory({k: np.array(v) for k, v in cols.items()})
+            exp[b][c] = cols
+        f[b] = blk
+    text = f.serialize()
+    g = pdbx.CIFFile.deserialize(text)
+    if list(g.keys()) != list(exp):
+        return f"block names {list(g.keys())} != {list(exp)}"
+    for b in exp:
+        if list(g[b].keys()) != list(exp[b]):
+            return f"category names of block {b!r}: {list(g[b].keys())} != {list(exp[b])}"
+        for c in exp[b]:
+            cat = g[b][c]
+            if list(cat.keys()) != list(exp[b][c]):
+                return f"column names of {b!r}.{c!r}: {list(cat.keys())} != {list(exp[b][c])}"
+            for col, vals in exp[b][c].items():
+                if cat[col].as_array(str).tolist() != vals:
+                    return f"{b!r}.{c!r}.{col!r} = {cat[col].as_array(str).tolist()}, wrote {vals}"
+    return None
+
+
+BLOCKS = [["1ABC"], ["blk", "BLK2"], ["a-b.c", "x_y", "7"], ["data", "loop"]]
+CATS = [["atom_site"], ["c", "C2", "pdbx_struct_oper_list"], ["atom_site_anisotrop", "a.b"[:1] + "1"]]
+COLS = [["id"], ["Cartn_x", "U[1][1]", "pdbx_PDB_ins_code"], ["a", "A1", "b-c", "label_comp_id"]]
+for bn in BLOCKS:
+    for cn in CATS:
+        for col in COLS:
+            for looped in (False, True):
+                R.check("all block / category / column names survive", "names", {"blocks": bn, "categories": cn, "columns": col, "looped": looped},
+                        lambda bn=bn, cn=cn, col=col, looped=looped: names_contract(bn, cn, col, looped))
+
+
 def mapping_protocol(make_file, make_block, make_cat, lazy):
     f = make_file()
     model = {}
